@@ -2,7 +2,7 @@
    (proofs: Client/FieldsProofs.v; model: Client/Fields.v on top of Client/Store.v). *)
 From Coq Require Import List Bool NArith ZArith.
 Import ListNotations.
-From Setec Require Import Base.SMap Base.Bytes Client.Store Client.StoreInv Client.Fields Client.FieldsProofs.
+From Setec Require Import Base.SMap Base.Bytes Base.Path Base.PathProofs Client.Store Client.StoreInv Client.Fields Client.FieldsProofs.
 
 Section C20.
 Variables V D : Type.
@@ -11,13 +11,56 @@ Variable unm_ok : ftype -> V -> bool.      (* does the type's UnmarshalBinary ac
 Variable ans : name -> option (N * V).     (* the service *)
 Variable now_s : Z.
 
-(* Go's path.Join on the property's domain (clean = relative, slash separated, no empty, "." or
-   ".." segment): prefix/name, and just the name when there is no prefix *)
+(* ---- Go's path.Join / path.Clean, for ALL byte strings (Base/Path.v).
+   go_clean / go_join transcribe src/path/path.go (the lazybuf algorithm, byte by byte); path_clean /
+   path_join2 are the same function over "/"-separated elements.  They are equal; the result of Clean
+   is idempotent and has the documented shape: split at "/", it is "/" alone, or (rooted) an empty
+   first element followed by good elements none of which is "..", or (relative) "." alone or good
+   elements with ".." only at the front - where a good element is non-empty, is not "." and contains
+   no "/".  Hence: no "//", no trailing "/" unless the result is "/", no "." element unless the result
+   is ".", ".." only at the front of a relative result. *)
+Theorem C20_path_model :
+  (forall p, go_clean p = path_clean p) /\
+  (forall a b, go_join [a; b] = path_join2 a b) /\
+  (forall p, path_clean (path_clean p) = path_clean p) /\
+  (forall a b, path_join2 a b <> [] -> path_clean (path_join2 a b) = path_join2 a b) /\
+  (forall p, let rooted := match p with c :: _ => N.eqb c slash | [] => false end in
+     exists l, normal rooted l /\
+       split_on slash (path_clean p) =
+         match rooted, l with
+         | true, [] => [[]; []] | true, _ => [] :: l | false, [] => [[dot]] | false, _ => l
+         end).
+Proof.
+  split; [exact go_clean_is_path_clean|]. split; [exact go_join2_is_path_join2|].
+  split; [exact path_clean_idem|]. split; [exact path_join2_clean|]. exact path_clean_elements.
+Qed.
+
+(* what `normal` says, spelled out: every element is non-empty, not "." and slash-free; a rooted result
+   has no ".." element; in a relative result every ".." element is preceded by ".." elements only *)
+Theorem C20_path_normal : forall rooted l, normal rooted l ->
+  Forall (fun s => s <> [] /\ s <> [dot] /\ ~ In slash s) l /\
+  (rooted = true -> Forall (fun s => s <> [dot; dot]) l) /\
+  (rooted = false -> forall a s b, l = a ++ s :: b -> s = [dot; dot] -> Forall (fun x => x = [dot; dot]) a).
+Proof. exact normal_spelled. Qed.
+
+(* on clean inputs (relative, slash separated, no empty, "." or ".." element) Join is prefix/name, and
+   just the name when there is no prefix (a corollary now; it used to delimit the model's domain) *)
 Theorem C20_join_clean : forall a b, clean a = true -> clean b = true ->
   path_join2 a b = a ++ slash :: b /\ path_join2 [] b = b.
 Proof. exact (fun a b Ha Hb => conj (path_join_clean a b Ha Hb) (path_join_noprefix b Hb)). Qed.
 
-(* The secrets requested are exactly prefix/name for each tagged (visible) field:
+(* The names REQUESTED are the names APPLIED, for every prefix and every tag name, clean or not: the
+   i-th name Secrets() returns and the name under which Apply looks up the i-th tagged field are the same
+   byte string, path.Join(prefix, tag name) as the Go source computes it (go_join) *)
+Theorem C20_requested_are_applied : forall pfx pfs (s s' : store V) frs rq,
+  Inv s -> apply jdec unm_ok ans now_s pfx s pfs = (s', frs, rq) ->
+  Forall2 (fun n (r : fres V D) => rname r = n) (secrets_of pfx pfs) frs /\
+  secrets_of pfx pfs = map (fun pf => go_join [pfx; psecret pf]) pfs /\
+  secrets_of pfx pfs = map (fun pf => path_join2 pfx (psecret pf)) pfs.
+Proof. exact (requested_are_applied V D jdec unm_ok ans now_s). Qed.
+
+(* The secrets requested are exactly path.Join(prefix, name) for each tagged (visible) field, for ALL
+   prefixes and (non-empty) tag names:
    Fields.Secrets is the list of joined tag names in field order; Apply produces one result per
    tagged field under exactly that name; every request made to the service is for one of these
    names, and every such name the store does not know yet is requested when lookups are allowed.
@@ -167,7 +210,10 @@ Qed.
 
 End C20.
 
+Print Assumptions C20_path_model.
+Print Assumptions C20_path_normal.
 Print Assumptions C20_join_clean.
+Print Assumptions C20_requested_are_applied.
 Print Assumptions C20_names_exact.
 Print Assumptions C20_field_values.
 Print Assumptions C20_field_kinds.
@@ -272,4 +318,15 @@ Example ex_declare_unsorted :
          /\ map (@rcontent N N) frs = [CString (3000 + x7a); CBytes (BFresh 0) (3000 + x61); CHandle (ex_n x6d); CString (3000 + x7a)]
      | _ => False
      end.
+Proof. vm_compute. repeat split; reflexivity. Qed.
+
+(* unclean prefixes and names: "prod/" + "db" = "prod/db"; "./prod" + "db"; "prod//east" + "../db";
+   "a/../b" + "./x/"; "/abs/" + ".."; "." + "."; ".." + "../x"; the transcription of the source and the
+   segment form agree (proved in general: C20_path_model) *)
+Example ex_join_unclean :
+  map (fun '(a, b) => go_join [a; b])
+    [([x70;x2f], [x64]); ([x2e;x2f;x70], [x64]); ([x70;x2f;x2f;x65], [x2e;x2e;x2f;x64]); ([x61;x2f;x2e;x2e;x2f;x62], [x2e;x2f;x78;x2f]);
+     ([x2f;x61;x2f], [x2e;x2e]); ([x2e], [x2e]); ([x2e;x2e], [x2e;x2e;x2f;x78]); ([], [x2f;x2f;x78])]
+  = [[x70;x2f;x64]; [x70;x2f;x64]; [x70;x2f;x64]; [x62;x2f;x78]; [x2f]; [x2e]; [x2e;x2e;x2f;x2e;x2e;x2f;x78]; [x2f;x78]]
+  /\ go_join [[x70;x2f]; []] = [x70] /\ go_join [[]; []] = [] /\ go_clean [] = [x2e].
 Proof. vm_compute. repeat split; reflexivity. Qed.
